@@ -2,29 +2,35 @@
 //
 // One case = one random program over a small universe (12 accounts, 3 tokens + the native coin
 // addressed as a token, 8 storage slots, 4 transaction hashes) executed on real state.StateDB objects:
-// an original and up to 3 live copies (copies of copies included), in one of the four ways the
-// repository itself builds a state.Database (plain trie, wrapped trie, flat key-value in memory,
-// flat key-value on goleveldb with its WAL file).
+// an original and up to 3 live copies (copies of copies included), on one of the four ways the
+// repository itself builds a state.Database (plain trie, wrapped trie = full node, flat key-value in
+// memory, flat key-value on goleveldb with its WAL file = non-full node).
 //
-// Oracles (none of them models what an operation should do):
+// Oracles (none of them models what an operation should do; all read through the public getters):
 //
-//	revert        at Snapshot() the harness records every observable the property lists, for every
-//	              account of the universe, through the public getters; after RevertToSnapshot the same
-//	              reading must be equal to the record.
-//	independence  after EVERY operation on state X the full reading of every other live state Y must be
-//	              equal to Y's previous reading.
-//	twin          the operations applied to the original are replayed, without any Copy, on a fresh
-//	              database; every root the original computed (IntermediateRoot / Commit) and, in the
-//	              flat in-memory mode, the final content of the store must be equal.
+//	revert/<class>               at Snapshot() every observable the property lists is recorded for every
+//	                             account of the universe; after RevertToSnapshot the same reading must be equal.
+//	revert-continuation/<class>  at the end, the original must read like a twin that never issued the
+//	                             reverted operations (hidden state a revert forgets, e.g. the log index counter).
+//	independence/<class>         after EVERY operation on state X the full reading of every other live
+//	                             state Y must equal Y's previous reading.
+//	copy-initial/<class>         right after Copy() the copy reads like its source.
+//	twin/root-differs            the operations applied to the original, replayed without any Copy on a
+//	                             fresh database, compute the same roots (IntermediateRoot/Commit) and, in the
+//	                             flat in-memory mode, the same final store.
 //
-// Diagnostics (never decide): root of a twin that omits the reverted spans (§6-S5b), and whether a
-// fresh copy reads equal to its source.
+// <class> = exist | self-destruct-mark | balance | token-balance | nonce | credits | code | storage |
+// committed-storage | empty | refund | logs; keys of cases on the flat backend carry the suffix "@flat-kv".
+// Diagnostic only (never decides): roots of the twin that omits the reverted spans (revert_root_diffs,
+// DESIGN §6-S5b), a panic inside Copy() (diag_copy_panics).
 //
 // Contract of the code that the workload respects (and nothing more):
 //   - snapshots never span Finalise/IntermediateRoot/Commit/Reset: Finalise clears the journal
 //     ("reverting across transactions is not allowed") and RevertToSnapshot panics on a stale id;
 //     every boundary drops the state's open snapshots. Snapshot ids of a state are never used on its copy
 //     ("Snapshots of the copied state cannot be applied to the copy").
+//   - deleteEmptyObjects is one constant per case (a chain parameter; the application hard-codes false).
+//   - CreateAccount is followed by SetNonce, as in evm.create (see applyOp).
 //   - (token) balances never go below zero and SubRefund never exceeds the counter.
 //   - flat key-value backend: Commit rewrites the single committed state of the shared database in
 //     place, so the other states over that database are retired at that moment (what app.CommitBlock
@@ -46,7 +52,7 @@ func init() {
 	core.Register(&core.Check{
 		ID:        "C09",
 		Level:     "exploration",
-		Technique: "runtime monitoring of real StateDB executions: recorded-observation oracle for snapshot/revert, per-operation cross-state observation oracle for Copy, differential untouched twin for roots",
+		Technique: "runtime monitoring of real StateDB executions: recorded-observation oracle for snapshot/revert, per-operation cross-state observation oracle for Copy, differential twins (never-copied twin for roots, revert-free twin for final readings)",
 		Rule: "case = random program (25..90 steps) of balance/token/nonce/credits/code/storage writes, create, self-destruct, logs, refunds, nested Snapshot/RevertToSnapshot (depth<=6, also to outer snapshots), " +
 			"Copy / copy-of-copy with independent continuations, IntermediateRoot/Finalise/Commit/Commit+Reset in the middle, on one of 4 storage backends. " +
 			"non-trivial = >=1 revert of a non-empty span that was nested or skipped inner snapshots, >=1 token write, and >=1 copy after which both the copy and its source were mutated; distinct by hash of the applied operation list",
@@ -54,6 +60,8 @@ func init() {
 			"observables = what the public getters return (the property's list); map-ordered getters (GetTokenBalances, Logs) are compared as sets/sorted",
 			"snapshots are taken and reverted inside one segment between Finalise/IntermediateRoot/Commit/Reset calls (the code's own rule); snapshot ids are never carried to a copy",
 			"flat key-value backend: a Commit retires every other state over the same database (single committed state per database by design); trie backends: no such restriction",
+			"deleteEmptyObjects is constant within a case; CreateAccount is followed by SetNonce as in evm.create; balances stay non-negative",
+			"copy-initial compares storage values as numbers (a reloaded committed slot reads without leading zero bytes); revert-continuation is not judged in universes holding the RIPEMD address (its touch stays dirty across reverts on purpose)",
 			"single goroutine; concurrent use of one StateDB is outside this property",
 		},
 		Cases: func(tier string) int {
@@ -83,7 +91,7 @@ func floors(tier string) map[string]int64 {
 		"reverted/tokwrite": 1000, "reverted/suicide": 240, "reverted/suicide-multitoken": 30, "reverted/log": 230, "reverted/refund": 230,
 		"reverted/create": 200, "reverted/code": 240, "reverted/store": 600, "reverted/nonce": 260, "reverted/credits": 100, "reverted/balwrite": 700,
 		"copies": 2400, "copies_of_copies": 500, "independence_checks": 55000, "token_writes": 9500,
-		"twin_compared_with_copies_taken": 600, "twin_roots_compared": 4500,
+		"twin_compared_with_copies_taken": 600, "twin_roots_compared": 4500, "copy_initial_checks": 2000, "revert_continuations_compared": 380,
 		"boundary/commit": 3000, "boundary/iroot": 3500, "boundaries_on_copies": 1300,
 		"mode/plain-trie": 330, "mode/wrapped-trie": 260, "mode/kv-mem": 290, "mode/kv-disk": 65,
 	}
@@ -215,7 +223,7 @@ func (g *gen) mutator(X *sobj) op {
 	case x < 75:
 		o.K, o.A, o.S, o.V = "store", g.pickAcct(X, nil), r.Intn(nSlots), g.value()
 	case x < 80:
-		o.K = "create"
+		o.K, o.N = "create", uint64(r.Intn(3))
 		if r.Chance(0.6) {
 			o.A = g.pickAcct(X, exists) // over an existing account: reset-object path
 		} else {
